@@ -2,7 +2,7 @@
    NULL-ignoring aggregates (uninterpreted ones return the bag they are fed), grouping, ordering (NULL smallest), slicing.
    Hand-written; tied to DuckDB by the correspondence checks of C01-C08.  No proofs in this file. *)
 From Coq Require Import ZArith String Ascii List Bool.
-Require Import V.Base.Calendar V.Base.CalendarFacts.
+Require Import V.Base.Calendar.
 Import ListNotations.
 Open Scope Z_scope.
 
